@@ -294,8 +294,8 @@ def gen_table(rng, kind="f0", **kw):
         gen_passes(rng, t, per_stage=kw.get("per_stage", (0, 3)), stages=("correct", "pass2", "pass3", "pass4"),
                    literal_only=True, biased_nonconsuming=kw.get("biased", False))
         if kw.get("context"):
-            # forward context rules inside the main pass (LouModel/ForwardCtx.lean); backward ones are outside the model
-            gen_passes(rng, t, per_stage=(1, 3), stages=("context",), directions=("noback",), literal_only=True,
+            # context rules inside the main pass, both directions (LouModel/ForwardCtx.lean, BackwardCtx.lean)
+            gen_passes(rng, t, per_stage=(1, 3), stages=("context",), directions=("noback", "nofor"), literal_only=True,
                        biased_nonconsuming=kw.get("biased", False))
     elif kind == "extras":
         gen_alphabet(rng, t, upper=False)
